@@ -38,6 +38,10 @@ type runTarget struct {
 	target  Target
 	changed bool
 	data    string
+
+	// dryRun is the number of the dry run (see Project.run) during which the target was assumed to change. The
+	// assumption must not outlive that run: the Project may be used for further runs.
+	dryRun int
 }
 
 func (t *runTarget) Evaluate(engine runner.Engine) error {
@@ -68,7 +72,9 @@ func (t *runTarget) Evaluate(engine runner.Engine) error {
 		depData[label] = newData
 
 		prevData, ok := info.Dependencies[label]
-		if !ok || dep.Target.(*runTarget).changed || newData != prevData {
+		depTarget := dep.Target.(*runTarget)
+		assumedChanged := proj.dryrun && depTarget.dryRun == proj.run
+		if !ok || depTarget.changed || assumedChanged || newData != prevData {
 			outOfDateDeps = append(outOfDateDeps, label)
 			depsUpToDate = false
 		}
@@ -101,8 +107,8 @@ func (t *runTarget) Evaluate(engine runner.Engine) error {
 	proj.events.TargetEvaluating(label, reason, diff)
 
 	if proj.dryrun {
-		// For dry runs, conservatively assume that the target changed.
-		t.changed = true
+		// For dry runs, conservatively assume that the target changed. The assumption only holds for this run.
+		t.dryRun = proj.run
 
 		proj.events.TargetSucceeded(label, true)
 		return nil
